@@ -1,9 +1,12 @@
 #!/bin/sh
 # usage: tools/try_mutant.sh <patch.diff> <Cxx> [tier]   -- applies the patch to /repo, runs the check, reverts
+# (the evidence file and the replay directory of the unchanged tree are preserved)
 P=$1; C=$2; T=${3:-quick}
 cd /repo || exit 2
 git diff --quiet || { echo "/repo working tree is dirty"; exit 2; }
 git apply "$P" || { echo "patch does not apply"; exit 2; }
+cp /verif/evidence/$C.json /verif/work/evidence-$C.keep 2>/dev/null
 cd /verif && ./check $C --tier $T > /verif/work/mut-$C.out 2> /verif/work/mut-$C.err; RC=$?
+cp /verif/work/evidence-$C.keep /verif/evidence/$C.json 2>/dev/null
 cd /repo && git checkout -- . && git clean -fdq crates
 echo "exit=$RC"; grep -E "^(VIOLATION|KNOWN-FINDING)" /verif/work/mut-$C.out | head -5; grep -E "fingerprint|TOOL-ERROR" /verif/work/mut-$C.err | sort | uniq -c | head -8
